@@ -126,47 +126,85 @@ example :
     get (discoverLinks [1] ls).depth 3 = some 2 ∧ get (discoverLinks [2] ls).depth 3 = none := by
   decide
 
-/-! ### the LinkManager / DataCollection state machine -/
+/-! ### the LinkManager / DataCollection state machine
 
-/-- History invariant.  After any history of operations (add/remove link(s), add/remove component,
-append/remove dataset, delay blocks — including operations that raise), whenever no
-delay block is open every dataset of the collection holds exactly `discover_links` of the current
-links (for the scan order of its last update). -/
-theorem manager_inv (ops : List (Op × List Nat)) (h0 : (run MState.init ops).delay = 0) :
-    ∀ D ∈ (run MState.init ops).dsets, ∃ ord,
-      D.cache = discoverLinks D.comps (scanList ord (effLinks (run MState.init ops).ext)) :=
+Datasets have stored attributes (`comps`) and internal derived attributes (`derived`, each with the
+`ComponentLink` that defines it from attributes of the same dataset); both kinds, and pixel ids, are
+link endpoints.  `curLinks s` = `_links | _inverse_links` = the internal links of every dataset of
+the collection, the external links, and the inverses.  `removeComp d c` removes `c` **and, as
+coded, recursively every derived attribute that reads it**, each removal being announced to the
+LinkManager on its own (`removeRec`).  A history is well-formed (`runWf`) when links are only added
+between live cids (components — stored or derived — of datasets in the collection, or parentless
+ids), datasets own their cids, a derived attribute reads at least one attribute, and `update_id`
+is not applied to a ComponentID that a stored link mentions. -/
+
+/-- History invariant.  After any well-formed history of operations (add/remove link(s), add/remove
+stored or derived attribute — with the cascade —, `update_id`, append/remove dataset, delay blocks,
+including operations that raise), whenever no delay block is open every dataset of the collection
+holds exactly `discover_links` of the current links (scanned in some order). -/
+theorem manager_inv (ops : List (Op × List Nat)) (hw : runWf MState.init ops = true)
+    (h0 : (run MState.init ops).delay = 0) :
+    ∀ D ∈ (run MState.init ops).dsets, ∃ ls',
+      (∀ l, l ∈ ls' ↔ l ∈ curLinks (run MState.init ops)) ∧ D.cache = discoverLinks D.comps ls' :=
   fun D hD =>
-    let ⟨ord, h, _⟩ := Lemmas.C03.good_run _ ops Lemmas.C03.good_init h0 D hD
-    ⟨ord, h⟩
+    let ⟨ls', hm, hc, _⟩ :=
+      (Lemmas.C03.inv_run _ ops Lemmas.C03.good_init Lemmas.C03.nd_init Lemmas.C03.wfs_init hw).1 h0 D hD
+    ⟨ls', hm, hc⟩
 
 /-- What the datasets read after such a history, outside a delay block: the externally derivable
-cids are exactly the reachable foreign ones, a cid is readable exactly when reachable, every read
-satisfies the oracle predicate and is the composition along a least-depth derivation. -/
-theorem manager_reads (ops : List (Op × List Nat)) (h0 : (run MState.init ops).delay = 0) :
+cids are exactly the reachable foreign ones (the dataset's own derived attributes are reached
+through their internal links) and — for a dataset whose own derived attributes are installed with
+their own links (`internalFirst`: no other link reaches one of them first) — a cid is readable exactly
+when reachable, every read satisfies the oracle predicate and is the composition along a
+least-depth derivation. -/
+theorem manager_reads (ops : List (Op × List Nat)) (hw : runWf MState.init ops = true)
+    (h0 : (run MState.init ops).delay = 0) :
     let s := run MState.init ops
     ∀ D ∈ s.dsets, ∀ c,
       (isDerivable D c = true ↔ (Reachable D.comps (curLinks s) c ∧ c ∉ D.comps)) ∧
-      ((readCid s D c).isSome = true ↔ Reachable D.comps (curLinks s) c) ∧
-      specOkAt D.comps (curLinks s) (ownVal s.vals) applyFn (readCid s D) c = true ∧
-      (∀ v, readCid s D c = some v → MinVal D.comps (curLinks s) (ownVal s.vals) applyFn c v) := by
+      (internalFirst D = true →
+        ((readCid s D c).isSome = true ↔ Reachable D.comps (curLinks s) c) ∧
+        specOkAt D.comps (curLinks s) (ownVal s.vals) applyFn (readCid s D) c = true ∧
+        (∀ v, readCid s D c = some v → MinVal D.comps (curLinks s) (ownVal s.vals) applyFn c v)) := by
   intro s D hD c
-  have hS := Lemmas.C03.good_run _ ops Lemmas.C03.good_init h0
-  exact ⟨Lemmas.C03.synced_derivable hS hD c, Lemmas.C03.synced_readable hS hD c,
-    Lemmas.C03.synced_specOk hS hD c, fun v hv => Lemmas.C03.synced_minVal hS hD c v hv⟩
+  have hS := (Lemmas.C03.inv_run _ ops Lemmas.C03.good_init Lemmas.C03.nd_init
+    Lemmas.C03.wfs_init hw).1 h0
+  exact ⟨Lemmas.C03.synced_derivable hS hD c, fun hi => ⟨Lemmas.C03.synced_readable hS hD hi c,
+    Lemmas.C03.synced_specOk hS hD hi c, fun v hv => Lemmas.C03.synced_minVal hS hD hi c v hv⟩⟩
+
+/-- A dataset always reads one of its own derived attributes through the attribute's own link
+(`Data.get_data` looks `_components` up first), whatever the LinkManager installed: the defining
+function applied to what the dataset reads for the inputs.  (The driver's oracle demands exactly
+this of the implementation, also inside delay blocks.) -/
+theorem derived_reads_internal (s : MState) (D : DSet) (n : Nat) (c : Cid) (l : CLink)
+    (hc : c ∉ D.comps) (hl : get (D.derived.map fun p => (p.2.to, p.2)) c = some l) :
+    readCidN s D (n + 1) c =
+      match allSome (l.froms.map (readCidN s D n)) with
+      | some vs => some (applyFn l.fn vs)
+      | none => none := by
+  have : get D.viaAll c = some l := by
+    simp only [DSet.viaAll, Lemmas.C03.get_append, hl]
+  have hn : readCidN s D n = evalC D.comps (ownVal s.vals) applyFn D.viaAll n := rfl
+  rw [hn]
+  simp only [readCidN, evalC, hc, if_false, this]
+  generalize allSome (l.froms.map (evalC D.comps (ownVal s.vals) applyFn D.viaAll n)) = o
+  cases o <;> rfl
 
 /-- Selections: `data.get_mask(cid > thr)` after such a history is `IncompatibleAttribute` exactly
 when `cid` is not reachable from the dataset, and otherwise selects exactly the elements whose
 derived value (a least-depth composition) exceeds `thr`. -/
-theorem selection_via_links (ops : List (Op × List Nat)) (h0 : (run MState.init ops).delay = 0) (thr : Int) :
+theorem selection_via_links (ops : List (Op × List Nat)) (hw : runWf MState.init ops = true)
+    (h0 : (run MState.init ops).delay = 0) (thr : Int) :
     let s := run MState.init ops
-    ∀ D ∈ s.dsets, ∀ c,
+    ∀ D ∈ s.dsets, internalFirst D = true → ∀ c,
       (selectGt thr (readCid s D c) = none ↔ ¬ Reachable D.comps (curLinks s) c) ∧
       (∀ m, selectGt thr (readCid s D c) = some m →
         ∃ v, MinVal D.comps (curLinks s) (ownVal s.vals) applyFn c v ∧
           m = v.map (fun x => decide (x > thr))) := by
-  intro s D hD c
-  have hS := Lemmas.C03.good_run _ ops Lemmas.C03.good_init h0
-  have hr := Lemmas.C03.synced_readable hS hD c
+  intro s D hD hi c
+  have hS := (Lemmas.C03.inv_run _ ops Lemmas.C03.good_init Lemmas.C03.nd_init
+    Lemmas.C03.wfs_init hw).1 h0
+  have hr := Lemmas.C03.synced_readable hS hD hi c
   constructor
   · rw [← hr]
     cases readCid s D c <;> simp [selectGt]
@@ -176,25 +214,30 @@ theorem selection_via_links (ops : List (Op × List Nat)) (h0 : (run MState.init
     | some v =>
       rw [hv] at hm
       simp only [selectGt, Option.map_some, Option.some.injEq] at hm
-      exact ⟨v, Lemmas.C03.synced_minVal hS hD c v hv, hm.symm⟩
+      exact ⟨v, Lemmas.C03.synced_minVal hS hD hi c v hv, hm.symm⟩
 
-/-- No stored link mentions a removed cid or dataset: if links are only ever added between live
-cids (own components of datasets in the collection, or parentless ids), then at every moment —
-also inside delay blocks — every stored link mentions only live cids. -/
+/-- No stored link mentions a removed cid or dataset: along a well-formed history, at every moment
+— also inside delay blocks — every stored link mentions only live cids.  "Removed" includes every
+derived attribute that a component removal cascaded to. -/
 theorem manager_no_dangling (ops : List (Op × List Nat)) (hw : runWf MState.init ops = true) :
     noDangling (run MState.init ops) = true :=
-  (Lemmas.C03.nd_iff _).mpr
-    (Lemmas.C03.nd_run _ ops (by intro e he; simp [MState.init] at he) hw)
+  (Lemmas.C03.nd_iff _).mpr (Lemmas.C03.nd_run _ ops Lemmas.C03.nd_init hw)
 
-/-- Unconditional post-conditions of the two removal handlers: after `remove_component(c)` on a
-dataset of the collection no stored link mentions `c`; after `dc.remove(d)` no stored link
-mentions an own cid of `d`. -/
+/-- Unconditional post-conditions of the removal handlers (any state, any history):
+after `remove_component(c)` on a dataset of the collection no stored link mentions `c`; more
+generally after `remove_component(c)` on any dataset every cid that a surviving stored link mentions
+and that was live before is still live — i.e. **every** attribute removed by the cascade (`c` and
+all derived attributes depending on it, transitively) has been forgotten; after `dc.remove(d)` no
+stored link mentions a (stored or derived) cid of `d`. -/
 theorem removal_forgets (ord : List Nat) (s : MState) (d : Nat) :
-    (∀ c D, findDs s.dsets d = some D → c ∈ D.comps →
+    (∀ c D, findDs s.dsets d = some D → c ∈ D.ids →
       ∀ e ∈ (step ord s (.removeComp d c)).1.ext, e.mentions c = false) ∧
-    (∀ e ∈ (step ord s (.remove d)).1.ext, ∀ D ∈ s.dsets, D.id = d → ∀ c ∈ D.comps,
+    (∀ c, ∀ e ∈ (step ord s (.removeComp d c)).1.ext, ∀ c' ∈ e.cids, liveCid s c' = true →
+      liveCid (step ord s (.removeComp d c)).1 c' = true) ∧
+    (∀ e ∈ (step ord s (.remove d)).1.ext, ∀ D ∈ s.dsets, D.id = d → ∀ c ∈ D.ids,
       e.mentions c = false) :=
   ⟨fun c D hf hc => Lemmas.C03.removeComp_forgets ord s d c D hf hc,
+   fun c => Lemmas.C03.removeComp_forgets_all ord s d c,
    Lemmas.C03.remove_forgets ord s d⟩
 
 /-! ### non-vacuity of the history hypotheses, and the excluded construct -/
@@ -218,6 +261,60 @@ example :
     (s6.dsets.map fun D => readCid s6 D (0, 1)) = [some [1, 2], none] ∧
     (s7.dsets.map fun D => readCid s7 D (0, 1)) = [some [1, 2], some [4, 5]] ∧
     (s7.dsets.map fun D => readCid s7 D (1, 1)) = [some [3, 5], some [5, 6]] := by decide
+
+/-- Derived attributes as link endpoints, and the cascade.  Dataset 0 has stored `x`, derived
+`y = 2x+1` and `z = y-1`; `z` is linked two-way to `w` of dataset 1 and `y` one-way to `u` of
+dataset 1.  The history is well-formed, every dataset has `internalFirst`; dataset 1 reads `z` through
+the inverse; removing `x` removes `y` and `z` too and **both** links are forgotten (nothing
+dangles), dataset 1 can no longer read `z`. -/
+def exDer : List (Op × List Nat) :=
+  [(.newData 0 [((0, 1), [1, 2])], []), (.newData 1 [((1, 1), [5, 6]), ((1, 2), [0, 0])], []),
+   (.append 0, []), (.append 1, []),
+   (.addDerived 0 10 ⟨[(0, 1)], (0, 2), ⟨[2], 1⟩⟩, [10]),
+   (.addDerived 0 11 ⟨[(0, 2)], (0, 3), ⟨[1], -1⟩⟩, [10, 11]),
+   (.addLink (.single ⟨1, ⟨[(0, 3)], (1, 1), ⟨[1], 4⟩⟩, some (2, ⟨[1], -4⟩)⟩), [10, 11, 1, 2]),
+   (.addLink (.single ⟨3, ⟨[(0, 2)], (1, 2), ⟨[3], 0⟩⟩, none⟩), [10, 11, 1, 2, 3]),
+   (.removeComp 0 (0, 1), [])]
+
+example :
+    let s8 := run MState.init (exDer.take 8)
+    let s9 := run MState.init exDer
+    runWf MState.init exDer = true ∧ s8.delay = 0 ∧ s8.dsets.all internalFirst = true ∧
+    s8.ext.length = 2 ∧
+    (s8.dsets.map fun D => readCid s8 D (0, 3)) = [some [2, 4], some [1, 2]] ∧
+    (s8.dsets.map fun D => readCid s8 D (1, 2)) = [some [9, 15], some [0, 0]] ∧
+    s9.ext.length = 0 ∧ (s9.dsets.map fun D => D.ids) = [[], [(1, 1), (1, 2)]] ∧
+    (s9.dsets.map fun D => readCid s9 D (0, 3)) = [none, none] ∧ noDangling s9 = true := by decide
+
+/-- The hypothesis `internalFirst` excludes only this: an external link from the dataset's own stored
+`x'` reaches its derived `z` (internal depth 2) at depth 1; `discover_links` installs the external link
+for `z`, `Data.get_data` still evaluates `z` through its own definition.  (The driver's oracle
+treats the dataset's own derived attributes separately, so these histories are checked too.) -/
+example :
+    let h : List (Op × List Nat) :=
+      [(.newData 0 [((0, 1), [1, 2]), ((0, 4), [7, 7])], []), (.append 0, []),
+       (.addDerived 0 10 ⟨[(0, 1)], (0, 2), ⟨[2], 1⟩⟩, [10]),
+       (.addDerived 0 11 ⟨[(0, 2)], (0, 3), ⟨[1], -1⟩⟩, [10, 11]),
+       (.addLink (.single ⟨3, ⟨[(0, 4)], (0, 3), ⟨[3], 0⟩⟩, none⟩), [10, 11, 3])]
+    let s := run MState.init h
+    runWf MState.init h = true ∧ s.dsets.all internalFirst = false ∧
+    (s.dsets.map fun D => readCid s D (0, 3)) = [some [2, 4]] := by decide
+
+/-- `update_id` on a link endpoint, as coded: the LinkManager does nothing on
+`ComponentReplacedMessage`, the stored link keeps naming the replaced ComponentID (which is why
+`runWf` excludes it), the collection re-syncs and the dataset no longer reaches the other side. -/
+example :
+    let h : List (Op × List Nat) :=
+      [(.newData 0 [((0, 1), [1, 2])], []), (.newData 1 [((1, 1), [5, 6])], []),
+       (.append 0, []), (.append 1, []),
+       (.addLink (.single ⟨3, ⟨[(0, 1)], (1, 1), ⟨[3], 0⟩⟩, none⟩), [3]),
+       (.updateId 0 (0, 1) (0, 9), [3])]
+    let s5 := run MState.init (h.take 5)
+    let s := run MState.init h
+    runWf MState.init h = false ∧ noDangling s = false ∧ s.ext.length = 1 ∧
+    (s5.dsets.map fun D => isDerivable D (1, 1)) = [true, false] ∧
+    (s.dsets.map fun D => isDerivable D (1, 1)) = [false, false] ∧
+    (s.dsets.map fun D => readCid s D (0, 9)) = [some [1, 2], none] := by decide
 
 /-- Regression witness for glue fix F1 (`add_link([...])` / `remove_link([...])` now update in a
 `finally`): a *list* `add_link([l, c])` whose second item raises (the same `LinkCollection` object is
